@@ -4,7 +4,7 @@
 //!   API <id> FI <ch> <cap> <n>                            FrameBuf::fill_interleaved with n samples
 //!   API <id> FL <ch> <cap> <bps> <len> <nb>               (FrameBuf, Context)::fill_le_bytes
 //!   API <id> FR <frame_number> <bad-sample:0|1>           encode_fixed_size_frame
-//!   API <id> ST <mt:0|1> <rate> <ch> <bps> <bs> <n> <bad> encode_with_fixed_block_size
+//!   API <id> ST <mt:0|1> <rate> <ch> <bps> <bs> <n> <bad> encode_with_fixed_block_size (bad: -1 | position | 10^6+k = every 32 samples)
 use crate::rng::Rng;
 use crate::s_enc::VarSource;
 use flacenc::component::StreamInfo;
@@ -54,8 +54,10 @@ pub fn gen(seed: u64, n: usize, out: &mut String) {
                 let ch = match r.below(6) { 0 => *r.pick(&[0u64, 8, 9]), 1 => wrap(&mut r, 2), _ => 1 + r.below(3) };
                 let bps = match r.below(6) { 0 => *r.pick(&[0u64, 7, 10, 26, 32, 33]), 1 => wrap(&mut r, 16), _ => *r.pick(&[8u64, 16, 24]) };
                 let bs = match r.below(6) { 0 => *r.pick(&[0u64, 1, 16, 31, 32, 32767, 32768, 40000, 65535, 65536, 65600]), 1 => wrap(&mut r, 64), _ => *r.pick(&[32u64, 64, 100]) };
-                let n = r.below(300);
-                let bad = if r.chance(1, 4) { r.below(n.max(1)) as i64 } else { -1 };
+                let n = if r.chance(1, 4) { 300 + r.below(700) } else { r.below(300) };
+                // bad: -1 all samples valid | p < 10^6: one invalid sample at position p | 10^6 + k: an invalid sample in EVERY block
+                // (every k-th .. sample; more failing blocks than the multi-threaded encoder has frame buffers)
+                let bad = match r.below(8) { 0 | 1 => r.below(n.max(1)) as i64, 2 => 1_000_000 + r.below(32) as i64, _ => -1 };
                 writeln!(out, "API a{} ST {} {} {} {} {} {} {}", i, mt, rate, ch, bps, bs, n, bad).unwrap();
             }
         }
@@ -101,9 +103,16 @@ pub fn run(id: &str, rest: &str) -> String {
             let nch = if ch == 0 || ch > 64 { 1 } else { ch };
             let mut samples = vec![0i32; n * nch];
             if bad >= 0 && !samples.is_empty() {
-                let p = (bad as usize * nch).min(samples.len() - 1);
                 let lim: i64 = if (1..=31).contains(&bps) { 1i64 << (bps - 1) } else { 1 << 15 };
-                samples[p] = match bad % 4 { 0 => i32::MAX, 1 => i32::MIN, 2 => lim as i32, _ => (-lim - 1) as i32 };
+                let v = match bad % 4 { 0 => i32::MAX, 1 => i32::MIN, 2 => lim as i32, _ => (-lim - 1) as i32 };
+                if bad >= 1_000_000 {
+                    let k = (bad - 1_000_000) as usize; let step = 32 * nch;
+                    let mut p = (k * nch).min(samples.len() - 1);
+                    while p < samples.len() { samples[p] = v; p += step; }
+                } else {
+                    let p = (bad as usize * nch).min(samples.len() - 1);
+                    samples[p] = v;
+                }
             }
             let src = VarSource { samples, ch, bps, rate, pos: 0, bytes_mode: false, hint: true, fail_at: None, reads: 0 };
             let (tx, rx) = std::sync::mpsc::channel();
